@@ -8,7 +8,7 @@ from ..core import Fail, Result
 
 ID = "C15"
 RULE = ("case = generic SDE (Stratonovich, 4 noise types, drawn sizes) x dyadic (t0, dt) x n in 1..64 steps x entropy x "
-        "float64; variants: a single step clipped at ts[-1] (span < dt), outputs strictly inside steps. reversible_heun is run forward with extra=True; then reversible_heun is run on the time-reversed, "
+        "float64; variants: a single step clipped at ts[-1] (span < dt), outputs strictly inside steps (symmetric and asymmetric under reversal), a third leg that reverses the reverse run with ReverseBrownian(ReverseBrownian(bm)). reversible_heun is run forward with extra=True; then reversible_heun is run on the time-reversed, "
         "negated SDE (f_r(s,y) = -f(-s,y), g_r(s,y) = -g(-s,y)) with ReverseBrownian and the negated final (f,g) extra "
         "state; every state of the forward trajectory must be reconstructed: relative 1e-12 for a single step, 1e-8 for "
         "n <= 64 steps; the reconstructed extra state must equal the negated initial one. Non-trivial = batch*d >= 2 and "
@@ -46,7 +46,16 @@ def _case(draw, tier):
             "levy": draw(st.sampled_from(["none", "none", "space-time", "davie"])),
             # a single step clipped at ts[-1] (span = frac * dt < dt) and outputs strictly inside steps (dyadic offsets)
             "clip_frac": draw(st.sampled_from([None, None, 0.5, 0.25, 0.75])) if n == 1 else None,
-            "dense": draw(st.sampled_from([False, False, True]))}
+            "dense": draw(st.sampled_from([False, False, True])),
+            # outputs strictly inside drawn steps at drawn dyadic fractions - not symmetric under time reversal, so the forward
+            # and the reverse solve are asked for different-looking output grids over the same step grid
+            "inside": draw(st.lists(st.tuples(st.integers(0, 63), st.sampled_from([0.125, 0.25, 0.375, 0.5, 0.625, 0.75])),
+                                    min_size=0, max_size=3)),
+            # there - back - there again: the third leg is driven by ReverseBrownian(ReverseBrownian(bm))
+            "third_leg": draw(st.sampled_from([False, False, True])),
+            # sparse: only ts[0], ts[-1] and the drawn inside times are requested (not every grid point), so nothing but
+            # the solver's own dt grid can make the two passes take the same steps
+            "sparse": draw(st.booleans())}
 
 
 def strategy(tier):
@@ -67,6 +76,9 @@ def run_case(case):
         # two extra outputs inside every other step (dyadic fractions, so that the reversed times mirror exactly)
         extra_t = [t0 + (k + f) * dt for k in range(0, n, 2) for f in (0.25, 0.75)]
         times = sorted(set(times + extra_t))
+    if not case.get("clip_frac") and case.get("inside"):
+        inside_t = [t0 + ((k % n) + f) * dt for k, f in case["inside"]]
+        times = sorted(set(([times[0], times[-1]] if case.get("sparse") else times) + inside_t))
     ts = torch.tensor(times, dtype=torch.float64)
     bm = sdes.make_bm(torchsde, spec, ts[0], ts[-1], case["entropy"], levy=case["levy"])
     sig = {"noise_type": spec["noise_type"], "n": "1" if n == 1 else "many"}
@@ -77,15 +89,26 @@ def run_case(case):
         ys_rev, (fr, gr, zr) = torchsde.sdeint(Reversed(sde), ys[-1], ts_rev, bm=ReverseBrownian(bm),
                                                method="reversible_heun", dt=dt, extra=True,
                                                extra_solver_state=(-fT, -gT, zT))
+        ys_again = None
+        if case.get("third_leg"):
+            # the reverse run reversed once more: SDE Reversed(Reversed(sde)) (= sde), Brownian motion reversed twice,
+            # extra state negated again; it must retrace the forward trajectory
+            ys_again, _ = torchsde.sdeint(Reversed(Reversed(sde)), ys_rev[-1], ts, bm=ReverseBrownian(ReverseBrownian(bm)),
+                                          method="reversible_heun", dt=dt, extra=True, extra_solver_state=(-fr, -gr, zr))
     back = ys_rev.flip(0)
     scale = max(1.0, float(ys.abs().max()))
     e = float((back - ys).abs().max()) / scale
+    if ys_again is not None:
+        e = max(e, float((ys_again - ys).abs().max()) / scale)
     e_extra = max(float((fr + f0).abs().max()), float((gr + g0).abs().max()), float((zr - y0).abs().max())) / \
         max(1.0, float(f0.abs().max()), float(g0.abs().max()), scale)
     tol = 1e-12 if n == 1 else 1e-8
     labels = [f"noise={spec['noise_type']}", "single_step" if n == 1 else f"steps>={8 if n >= 8 else 2}",
               f"levy={case['levy']}"] + (["clipped_single_step"] if case.get("clip_frac") else []) + \
-        (["outputs_inside_steps"] if case.get("dense") and not case.get("clip_frac") else [])
+        (["outputs_inside_steps"] if case.get("dense") and not case.get("clip_frac") else []) + \
+        (["asymmetric_outputs_inside_steps"] if case.get("inside") and not case.get("clip_frac") else []) + \
+        (["third_leg_doubly_reversed_bm"] if case.get("third_leg") else []) + \
+        (["sparse_outputs"] if case.get("sparse") and case.get("inside") and not case.get("clip_frac") else [])
     fail = None
     if not (e <= tol) or not bool(torch.isfinite(back).all()):
         fail = Fail("not_reversible", f"reverse solve reconstructs the forward trajectory only to {e:.3e} (relative) over "
